@@ -57,3 +57,14 @@ CHECKS["C04"] = {
     "level_text": "Every identifier slot is rendered with hostile names and lexed with an independent model of the engine's lexer: the statement must keep the token sequence it has for a benign name and the slot must be one quoted-identifier token decoding to the supplied string; for SQLite the engine's own catalogue confirms the decoded name. Bounded-exhaustive over the quote-relevant alphabet because only short combinations of quote characters can break quoting.",
     "level_note": "Trusted: the MySQL/Postgres identifier lexing models. Positions covered are listed in the evidence (observed_sets.positions).",
 }
+
+CHECKS["C10"] = {
+    "parts": BASE,
+    "level": "exploration",
+    "technique": "runtime monitor: sequential reference model of the INSERT builder checked after every call of bounded-exhaustive call histories (Result, unchanged-on-error, rendered VALUES list on 3 backends)",
+    "rule": "histories: every sequence of length <= 4 (quick) / 5 (thorough) over 22 concrete calls (columns(0..3), values(0..3), values_panic(0..3), values_from_panic(1-2 rows), select_from(0..3 items), or_default_values, or_default_values_many(0|2)) plus random sequences of length 5..12; every cell carries a unique integer tag; non-trivial = history of >= 2 calls; distinct = distinct histories",
+    "assumptions": ["values() after select_from() (and vice versa) replaces the source kind (last writer wins), as the code does and the docs do not forbid"],
+    "design_ref": "DESIGN.md §5 C10",
+    "level_text": "A small executable model of the builder state (columns, source, default rows) predicts the Result of every call and the exact rows x columns of every rendering; the real builder is compared with it after every call of every history up to the bound. Exploration is right: the contract is over call histories and the interesting ones are short.",
+    "level_note": "Trusted: the 60-line model in c10.rs and the dialect lexer used to read the VALUES list back.",
+}
